@@ -182,7 +182,9 @@ class Optic:
             if np.isinf(value):
                 return  # a plane already has infinite radius
             cs = surface.geometry.cs
-            new_geometry = StandardGeometry(cs, radius=value, conic=0)
+            # keep a conic constant given to the plane through set_conic
+            conic = getattr(surface.geometry, 'k', 0)
+            new_geometry = StandardGeometry(cs, radius=value, conic=conic)
             surface.geometry = new_geometry
         else:
             surface.geometry.radius = value
